@@ -22,6 +22,17 @@ def mutants(size, rng, thorough, values=(0x00, 0xFF, 0x01, 0x80, 0x7F, 0x40)):
     return out
 
 
+def fixed_mutants(size, thorough, values=(0x00, 0xFF, 0x01, 0x80, 0x7F, 0x40, 0x10, 0x08)):
+    """damage the checksum cannot see: the trailer is recomputed after the change"""
+    out = []
+    for pos in range(size - 20):
+        for v in (values if not thorough else range(256)):
+            out.append(["bytefix", pos, v])
+    for n in range(12, size - 20):
+        out.append(["truncfix", n])
+    return out
+
+
 def run(rep):
     rng = rep.rng
     thorough = rep.tier == "thorough"
@@ -30,7 +41,9 @@ def run(rep):
                          "has; spelled as OFS deltas where the base is earlier and as REF deltas otherwise; add_thin_pack verdict vs the "
                          "model.  Mutation sweeps: every position x {6 byte values (all 256 in thorough), 8 bit flips}, every truncation "
                          "and 4 appended tails of a 289-byte five-object pack (OFS + REF delta) through add_thin_pack, add_pack+commit, "
-                         "MemoryObjectStore.add_thin_pack and PackStreamReader; of its 1156-byte v2 index, a loose object, packed-refs "
+                         "MemoryObjectStore.add_thin_pack/add_pack/add_pack_data, add_pack_data and PackStreamReader, and again with the trailer "
+                         "recomputed after the damage (so that the checksum does not mask what lies behind it); delta graphs through every "
+                         "store kind and ingestion path; reads of installed packs with crafted index and base names vs read_entry; of its 1156-byte v2 index, a loose object, packed-refs "
                          "and an index file through Repo() reads.  A mutant must end as ok or as an ordinary Exception within 20 s; a "
                          "failed ingestion must leave set(store) and the directory listing (temporary files aside) unchanged; whatever "
                          "a success makes visible must hash to its name.  distinct non-trivial = mutants and graphs")
@@ -47,6 +60,11 @@ def run(rep):
     if not thorough and len(graphs) > 900:
         graphs = graphs[:300] + rng.sample(graphs[300:], 600)
     reqs = [{"fn": "graph", "entries": g} for g in graphs]
+    # the same verdict is owed by every store kind and ingestion path
+    # (add_pack_data takes parsed entries with known names, so it has no delta graphs of its own)
+    variants = [("disk", "add_pack"), ("memory", "thin"), ("memory", "add_pack")]
+    vgraphs = [g for g in graphs if len(g) <= 3] if not thorough else [g for g in graphs if len(g) <= 4]
+    vreqs = [{"fn": "graph", "entries": g, "store": st, "path": pa} for g in vgraphs for st, pa in variants]
     # model: "e" (external base present in the store) behaves as a full object's dependant that resolves; "x" never resolves
     lines = []
     for g in graphs:
@@ -55,9 +73,13 @@ def run(rep):
             m.append("f" if e == "f" else "d%d" % (len(g) + 1) if e == "x" else "d%d" % len(g) if e == "e" else e)
         m.append("f")        # position len(g): the external object the store already has
         lines.append("resolve " + ",".join(m))
-    for g, r, m in zip(graphs, impl.run(reqs), model.run(lines)):
-        case = {"entries": g}
-        rep.case("delta-graph", key=",".join(g), nontrivial=len(g) > 1, outcome=r.get("cls"), sample=case)
+    mres = model.run(lines)
+    verdict = {",".join(g): m for g, m in zip(graphs, mres)}
+    allg = [(g, {}, r, m) for g, r, m in zip(graphs, impl.run(reqs), mres)]
+    allg += [(q["entries"], {"store": q["store"], "path": q["path"]}, r, verdict[",".join(q["entries"])]) for q, r in zip(vreqs, impl.run(vreqs))]
+    for g, var, r, m in allg:
+        case = dict({"entries": g}, **var)
+        rep.case("delta-graph" + (":%s/%s" % (var["store"], var["path"]) if var else ""), key=",".join(g) + repr(sorted(var.items())), nontrivial=len(g) > 1, outcome=r.get("cls"), sample=case)
         if "cls" not in r:
             rep.fail("graph-worker", "graph ingestion failed: %r" % (r,), case)
             continue
@@ -71,6 +93,30 @@ def run(rep):
             rep.fail("failed-ingest-left-trace", "the pack was refused (%s) but the store changed" % r["cls"], case)
         if got_ok and (not r["all_present"] or r["bad"]):
             rep.fail("ingest-inconsistent", "accepted pack: all objects present %s, wrong hashes %s" % (r["all_present"], r["bad"]), case)
+    # ---- reads of an installed pack whose index and base names were crafted: Pack.resolve_object vs DeltaGraph.read_entry
+    rgraphs = []
+    for k in range(1, (4 if not thorough else 5) + 1):
+        for g in itertools.product(*([["f"] + ["d%d" % b for b in range(k + 1)]] * k)):
+            rgraphs.append(list(g))
+    if not thorough and len(rgraphs) > 500:
+        rgraphs = rgraphs[:200] + rng.sample(rgraphs[200:], 300)
+    rreqs = [{"fn": "crafted_read", "entries": g, "ofs": o} for g in rgraphs for o in (False, True)]
+    rlines = ["read %s %d" % (",".join(g), i) for g in rgraphs for i in range(len(g))]
+    mr = iter(model.run(rlines))
+    want = {",".join(g): [next(mr) for _ in g] for g in rgraphs}
+    for q, r in zip(rreqs, impl.run(rreqs)):
+        case = {"entries": q["entries"], "ofs": q["ofs"], "read": True}
+        rep.case("crafted-read", key=",".join(q["entries"]) + str(q["ofs"]), nontrivial=len(q["entries"]) > 1, outcome=repr(r.get("reads")), sample=case)
+        if "reads" not in r:
+            rep.fail("read-worker", "reading the crafted pack failed: %r" % (r,), case)
+            continue
+        for i, (got, m) in enumerate(zip(r["reads"], want[",".join(q["entries"])])):
+            if got == "hang" or got.startswith(("resource", "baseexception")):
+                rep.fail("not-contained", "reading entry %d of a crafted pack ended as %s" % (i, got), case)
+            elif got == "ok:other":
+                rep.fail("read-wrong-object", "entry %d of the crafted pack read back as another object" % i, case)
+            elif (got == "ok:same") != (m == "ok"):
+                rep.disagree("Pack.resolve_object vs DeltaGraph.read_entry (entry %d)" % i, case, m, got)
     # ---- mutation sweeps
     psize = impl.run([{"fn": "sample_size"}])[0]["size"]
     reqs = []
@@ -79,6 +125,18 @@ def run(rep):
     for path in ("thin", "add_pack", "memory", "stream"):
         for ch in chunks:
             reqs.append({"fn": "pack_sweep", "path": path, "mutants": ch})
+    fsize = impl.run([{"fn": "sample_size_full"}])[0]["size"]
+    fm, fmf = fixed_mutants(psize, thorough), fixed_mutants(fsize, thorough)
+    for path in ("thin", "add_pack", "add_pack_data", "memory", "memory_add_pack", "memory_add_pack_data", "stream"):
+        pm = fmf if path.endswith("add_pack_data") else fm
+        pm = pm if thorough or path in ("thin", "memory_add_pack") else pm[::3]
+        for i in range(8):
+            reqs.append({"fn": "pack_sweep", "path": path, "mutants": pm[i::8], "label": path + "+trailer-fixed"})
+    fmuts = mutants(fsize, rng, thorough)
+    for path in ("add_pack_data", "memory_add_pack", "memory_add_pack_data"):
+        pm = fmuts if path.endswith("add_pack_data") else muts
+        for i in range(8):
+            reqs.append({"fn": "pack_sweep", "path": path, "mutants": pm[i::8][::2] if not thorough else pm[i::8]})
     sizes = {}
     for kind in ("idx", "loose", "packed-refs", "index"):
         sizes[kind] = impl.run([{"fn": "file_sweep", "kind": kind, "size_only": True, "mutants": []}])[0]["size"]
@@ -87,7 +145,7 @@ def run(rep):
             reqs.append({"fn": "file_sweep", "kind": kind, "mutants": ms[i::8]})
     totals = {}
     for q, r in zip(reqs, impl.run(reqs)):
-        what = q.get("path") or q["kind"]
+        what = q.get("label") or q.get("path") or q["kind"]
         if "classes" not in r:
             rep.fail("sweep-worker", "mutation sweep %s failed: %r" % (what, r), {"sweep": what})
             continue
